@@ -194,6 +194,8 @@ pub mod encode;
 pub mod filter;
 #[cfg(feature = "console_writer")]
 mod priv_io;
+#[cfg(feature = "verif_hooks")]
+pub mod verif;
 
 pub use config::{init_config, Config};
 
